@@ -143,6 +143,16 @@ class UnitResult:
         self.kind = "function"
         self.target = ""
         self.note = ""
+        self.branches: set = set()
+        self.all_ifs: List[int] = []
+
+    def uncovered(self) -> List[str]:
+        out = []
+        for rel in self.all_ifs:
+            for b in ("T", "F"):
+                if f"{rel}:{b}" not in self.branches:
+                    out.append(f"+{rel}:{b}")
+        return out
 
     def to_json(self) -> Dict[str, Any]:
         return {
@@ -150,6 +160,7 @@ class UnitResult:
             "paths": self.paths, "returned_paths": self.returned_paths, "errors": self.errors,
             "assumptions": self.assumptions, "functions": self.functions, "wall_s": round(self.wall, 3),
             "solver_s": round(self.solver_time, 3), "solver_checks": self.checks, "note": self.note,
+            "uncovered_branches": self.uncovered(),
             "obligations": [o.to_json() for o in self.obligations],
         }
 
@@ -175,6 +186,7 @@ def explore(run: Callable[[Path], None], res: UnitResult, max_paths: int, ob_tim
         if path.reached_return:
             res.returned_paths += 1
         res.obligations.extend(path.obligations)
+        res.branches.update(path.notes)
         res.solver_time += path.solver_time
         res.checks += path.n_checks
         for a in path.assumptions_used:
@@ -206,6 +218,7 @@ def verify_function(engine: Engine, c: Contract, ob_timeout_ms: int = 10000) -> 
         return res
     engine.functions_seen = {}
     engine.note_function(fi, "target")
+    res.all_ifs = sorted({n.lineno - fi.node.lineno for n in ast.walk(fi.node) if isinstance(n, ast.If)})
     spec_mods = []
     for s in c.specs:
         m = engine.loader.module(s)
